@@ -166,15 +166,31 @@ func VAssign(S, K int) {
 }
 
 // VScaleDown: phase lemma for tryScaleDown (C07 clauses on the returned scale, C04 on transfers).
-func VScaleDown(S, K int) {
+// mode 1 ("drain"): no head limit, every shard in sync, the targets all sit on the last but one
+// shard in normal state and scraped long enough, the shards in front hold none (their loads are
+// free), the last shard is empty and idle: the drain has to pack K targets into the front shards.
+func VScaleDown(S, K, mode int) {
 	c := &Coordinator{option: vOption(), log: vLogger()}
 	zzv.Assume(c.option.MaxIdleTime != 0)
 	base := time.Now()
-	infos, pre := vShardInfos(S, K, false)
+	infos, pre := vShardInfos(S, K, mode == 1)
+	if mode == 1 {
+		zzv.Assume(c.option.MaxHeadSeries == 0)
+		for i := range infos {
+			want := 0
+			if i == S-2 {
+				want = K
+			}
+			zzv.Assume(len(pre[i]) == want)
+		}
+		for _, st := range infos[S-2].scraping {
+			zzv.Assume(st.TargetState == target.StateNormal && st.ScrapeTimes >= 3)
+		}
+	}
 	head0, proc0 := make([]int64, S), make([]int64, S)
 	for i := range infos {
 		head0[i], proc0[i] = infos[i].runtime.HeadSeries, infos[i].runtime.ProcessSeries
-		if len(pre[i]) == 0 && zzv.Choose("s"+zzv.Itoa(i)+".idle", 2) == 1 {
+		if len(pre[i]) == 0 && (mode != 1 || i == S-1) && zzv.Choose("s"+zzv.Itoa(i)+".idle", 2) == 1 {
 			ago := zzvDuration("s" + zzv.Itoa(i) + ".idleAgo")
 			zzv.Assume(0 <= ago && int64(ago) <= int64(1)<<51)
 			t := base.Add(-ago)
